@@ -38,7 +38,13 @@ for n in sorted(os.listdir(f'{V}/seeded')):
 stable='\n'.join(srows)
 caught=sum(1 for v in res.values() if v[0]=='1')
 stable+=f"\n\n{caught} of {len(res)} seeded changes are caught by the quick check of their property."
-body=open(f'{V}/tools/asbuilt.md').read().replace('@@PROPERTY_TABLE@@',ptable).replace('@@SEEDED_TABLE@@',stable)
+kf=json.load(open(f'{V}/known_findings.json'))
+frows=["| commit | property | obligation that failed before the repair | defect |","|--------|----------|------------------------|--------|"]
+for k in kf:
+    if k.get('status')=='fixed':
+        frows.append(f"| {k.get('commit','')} | {k['property']} | `{k['obligation']}` | {k['what'].replace('|','/')} |")
+ftable='\n'.join(frows)
+body=open(f'{V}/tools/asbuilt.md').read().replace('@@PROPERTY_TABLE@@',ptable).replace('@@SEEDED_TABLE@@',stable).replace('@@FIXED_TABLE@@',ftable)
 d=open(f'{V}/DESIGN.md').read()
 a=d.index('<!-- ASBUILT-BEGIN -->')+len('<!-- ASBUILT-BEGIN -->'); b=d.index('<!-- ASBUILT-END -->')
 open(f'{V}/DESIGN.md','w').write(d[:a]+'\n'+body+'\n'+d[b:])
